@@ -28,7 +28,7 @@ Print Assumptions C19_add_once_in_order.
 Theorem C19_undeclared_macro : forall T rd rec fuel st buf t math,
   assoc (txt t) (macros st) = None ->
   exists st',
-    expand_macro T rd rec fuel st buf t math = Ok (st', ([ActionT (pos t)], skip_space buf)) /\
+    expand_macro T rd rec fuel st buf t math = Ok (st', ([ActionT (pos t)], skip_ctl buf)) /\
     unknowns st' = (if math then unknowns st else add_unknown (unknowns st) (txt t)) /\
     macros st' = macros st /\ environs st' = environs st.
 Proof. exact expand_macro_undeclared. Qed.
@@ -37,7 +37,7 @@ Print Assumptions C19_undeclared_macro.
 Theorem C19_declared_macro_not_listed : forall T rd rec fuel st buf t math mac,
   assoc (txt t) (macros st) = Some mac ->
   expand_macro T rd rec fuel st buf t math =
-  expand_arguments T rd rec fuel st (skip_space buf) mac (pos t).
+  expand_arguments T rd rec fuel st (skip_ctl buf) mac (pos t).
 Proof. exact expand_macro_declared. Qed.
 Print Assumptions C19_declared_macro_not_listed.
 
